@@ -229,6 +229,13 @@ func genC06(c *Ctx, r *rng.R, i int) {
 	try(c, "SetVal", func() cty.Value { return cty.SetVal([]cty.Value{v, w, v}) })
 	try(c, "MapVal", func() cty.Value { return cty.MapVal(map[string]cty.Value{"k": v, "Å": w}) })
 	try(c, "StringVal(denormalised)", func() cty.Value { return cty.StringVal("é" + gv.GenStr(r)) })
+	for k := 0; k < 3; k++ {
+		d := gv.NonNFC[r.Intn(len(gv.NonNFC))]
+		try(c, "StringVal(not NFC)", func() cty.Value { return cty.StringVal(d + gv.GenStr(r)) })
+		try(c, "ObjectVal(attribute name not NFC)", func() cty.Value { return cty.ObjectVal(map[string]cty.Value{d: v, "z": w}) })
+		try(c, "MapVal(key not NFC)", func() cty.Value { return cty.MapVal(map[string]cty.Value{d: v, "k" + d: v}) })
+		try(c, "Object type(attribute name not NFC)", func() cty.Value { return cty.NullVal(cty.Object(map[string]cty.Type{d: v.Type()})) })
+	}
 	// traversal
 	tryErr(c, "Transform(identity)", func() (cty.Value, error) {
 		return cty.Transform(v, func(p cty.Path, x cty.Value) (cty.Value, error) { return x, nil })
